@@ -146,8 +146,10 @@ def run(tier, seed):
                 hit = [r.known_by_hyp[h] for h in hyps if h in flags and h in r.known_by_hyp]
                 if same and hit:
                     v.known(hit[0]["id"], hit[0]["summary"]); return
+                # a recorded finding's symptom in a case where implementation and model disagree: only if
+                # nothing more specific is found
                 v.violation(f"{nm}-{k[1]}", f"case {nm}: {msg} (failed hypotheses: {sorted(flags) or 'none'})",
-                            f"# {msg}\n# query #{k[1]}: {' '.join(cases.queries[k])}\n" + cases.replay_text(nm))
+                            f"# {msg}\n# query #{k[1]}: {' '.join(cases.queries[k])}\n" + cases.replay_text(nm), weak=bool(hit))
             reported = parse_list(ia.get(ck[0], "[]"))
             # the model enumerates the root orders: more than one possible answer = the report depends on
             # HashMap iteration order (which rotation of a cycle, anchored at which fixture)
